@@ -23,6 +23,7 @@ import (
 	"os"
 	"path"
 	"path/filepath"
+	"strconv"
 	"strings"
 	"sync"
 	"time"
@@ -239,6 +240,19 @@ func CompareVersion(v1, v2 string) int {
 		return -1
 	} else if parts1[0] > parts2[0] {
 		return 1
+	}
+
+	// the nanosecond part is written without leading zeros: compare it as a number,
+	// not as text ("94748224" is earlier than "111479242")
+	n1, err1 := strconv.ParseUint(parts1[1], 10, 64)
+	n2, err2 := strconv.ParseUint(parts2[1], 10, 64)
+	if err1 == nil && err2 == nil {
+		if n1 < n2 {
+			return -1
+		} else if n1 > n2 {
+			return 1
+		}
+		return 0
 	}
 
 	if parts1[1] < parts2[1] {
